@@ -178,7 +178,7 @@ class InitGlobals(Unit):
         self.I = I
         keys = loop_keys(minecraft.initglobals, 'minecraft.initglobals', kind=ast.For)
         if len(keys) != 2:
-            raise RuntimeError('initglobals no longer has two loops')
+            raise Unsupported('contract does not fit the code any more: initglobals no longer has two loops')
         unit = self
         Version = minecraft.Version
 
